@@ -1,3 +1,61 @@
+/-
+  C16 — "MemoryFS is linearizable under concurrent use: under every interleaving each call's
+  result and the final state are those of some sequential execution of the same calls that
+  respects each thread's program order. In particular the tree stays well-formed, no update is
+  lost, and nothing panics or deadlocks."
+
+  Object: the concurrency model VfsModel/Conc.lean (one shared map; a thread = list of calls; a
+  call = the sequence of its lock regions; `step s tid` = thread `tid` runs its next region
+  atomically; `run s schedule`; `callAtomic` = a whole call run atomically).
+  Helper lemmas: VfsModel/Proofs/ConcLemmas.lean.
+
+  EVERYTHING below is PROVED (no placeholder, no axiom beyond Lean's propext / Quot.sound /
+  Classical.choice); nothing in this file is "stated, not proved".
+
+  1. Well-formedness under every interleaving
+       `wf_invariant`   for EVERY state (any number of threads, any programs, any calls in progress
+                        at any program point) with a `WF` map and no `remove_dir("")` in any
+                        thread (`Inv`), and every thread id: `step` keeps `Inv` (so the map `WF`)
+       `run_wf`, `run_wf_of_programs`   hence every schedule keeps it
+       `region_wf` (ConcLemmas)   every region keeps `WF` (`rmDir []` aside); uses
+                        `WF.createDir_any` / `WF.createFile_any`: `MemoryFS::create_dir` /
+                        `create_file` keep `WF` on EVERY path, because `ensure_has_parent` (parent
+                        is an existing DIRECTORY) is evaluated inside the region of the update
+     1b. the root itself: `removeDir_root` (`remove_dir("")` is refused, or the tree was the bare
+       root and the map becomes empty), `wf_or_empty_invariant`, `run_wf_or_empty`: with NO
+       hypothesis on the programs, every step keeps "WF or the empty map"
+  2. Linearizability by reduction
+       `single_region_calls`   remove_file, remove_dir, exists, metadata, read_dir, open+read,
+                        append_file(open), write_all+drop are single-region
+       `single_region_atomic`  for such a call one `stepThread` IS `callAtomic`
+       `reaches_region`        the reduction lemma: a call in progress (`Reaches`) whose next
+                        region runs on an ARBITRARY map either passes a read-only probe, or
+                        completes with exactly the map / handle / result of `callAtomic` on that map
+       `createDir_linearizes_at_last_region`, `createFile_linearizes_at_last_region`,
+       `probes_linearize`      the three regions of create_dir / create_file on three arbitrary
+                        maps m1 m2 m3: the probes change nothing, an early exit is the error of the
+                        atomic call on that map, the last region equals the atomic call on m3
+                        (EXACT equality of result, map and handle slot, not only up to ok/err)
+       `linearizable`          GLOBAL theorem: any number of threads, any programs of `LinCall`s
+                        (everything but the two sessions and create_dir_all), any schedule
+                        (complete or not): the sequential machine `runA` (atomic calls, program
+                        order per thread) run in the order of the calls' last regions
+                        (`orderOf ks schedule`) ends in the simulation relation `SRel`: same map,
+                        same handle slots, same result lists (exact values), same pending calls
+       `linearizable_complete` corollary for schedules that run every thread to completion
+  3. Negative facts (kernel-evaluated witnesses, `decide +kernel`)
+       `writeSession_not_atomic`   a reader sees the EMPTY file between `create_file` and the drop
+       `appendSession_lost_update` two append sessions, schedule t0 t1 t0 t1: one update lost
+       `old_createDir_race`        variant `regionOld` (create_dir before commit 17b99c0: parent
+                        checked for existence in a region of its own): create_dir("/a/b") and
+                        remove_dir("/a") both return Ok, "/a/b" has no parent: not `WF`
+       `race_fixed`                same calls, current model: create_dir fails, tree well-formed
+       `createDirAll_not_atomic_under_removal`   why C17 excludes removals
+  4. No deadlock / no panic in the model
+       `step_progress`   `step` is total; a scheduled thread with a call in progress or calls
+                        left strictly decreases `measure` (bound on its remaining regions)
+       `stepThread_progress`, `step_other`, `stepThread_finished`, `mem_ops_no_panic`
+-/
 import VfsModel.Proofs.ConcLemmas
 namespace Vfs.C16
 open Vfs Vfs.Conc
@@ -124,6 +182,131 @@ theorem run_wf_of_programs (m : FMap) (progs : List (List COp)) (schedule : List
   simp only [List.mem_map] at ht
   obtain ⟨p, hp', rfl⟩ := ht
   exact ⟨hp p hp', fun pt h => by cases h⟩
+
+/-! ### 1b. what happens when the root itself is removed
+
+`remove_dir("")` succeeds on a tree that consists of the root only, and leaves the EMPTY map, on
+which every later call fails without changing anything. So without any hypothesis on the
+programs the invariant is "well-formed, or empty". -/
+
+/-- the empty map (the state after `remove_dir("")` on the bare root) -/
+def Empty (m : FMap) : Prop := ∀ k, m.find? k = none
+
+theorem regionFiles_empty (m : FMap) (pt : Pt) (h : Empty m) : regionFiles m pt = m := by
+  cases pt with
+  | cdaLoop l =>
+    cases l with
+    | nil => rfl
+    | cons d rest =>
+      simp [regionFiles, Mem.createDir, Mem.ensureHasParent, h (parentInternal d), fail]
+  | cdCreate p => simp [regionFiles, Mem.createDir, Mem.ensureHasParent, h (parentInternal p), fail]
+  | cfCreate p s => simp [regionFiles, Mem.createFile, Mem.ensureHasParent, h (parentInternal p), fail]
+  | flush wh => simp [regionFiles, memPublish, h wh.key]
+  | rmFile p => simp [regionFiles, Mem.removeFile, h p]
+  | rmDir p => simp [regionFiles, Mem.removeDir, Mem.readDir, h p, fail]
+  | obsOpen p => simp [regionFiles, Mem.openFile, Mem.setAccessed, h p, fail]
+  | gpExists p f s => rfl
+  | gpMeta p f s => rfl
+  | apOpen p s => rfl
+  | obsExists p => rfl
+  | obsMeta p => rfl
+  | obsReadDir p => rfl
+
+theorem parent_shorter (k : Str) (hs : '/' ∈ k) : (parentInternal k).length < k.length := by
+  have h := (split_last '/' k hs).1
+  have : k.length = (beforeLast '/' k ++ '/' :: afterLast '/' k).length := by rw [← h]
+  simp only [List.length_append, List.length_cons] at this
+  unfold parentInternal
+  omega
+
+/-- in a well-formed tree whose root has no children there is nothing but the root -/
+theorem _root_.Vfs.WF.only_root {m : FMap} (hwf : WF m) (hl : m.keys.filterMap (childName []) = []) :
+    ∀ k, k ≠ [] → m.find? k = none := by
+  have key : ∀ n (k : Str), k.length = n → k ≠ [] → m.find? k = none := by
+    intro n
+    induction n using Nat.strongRecOn with
+    | ind n ih =>
+      intro k hlen hne
+      cases hk : m.find? k with
+      | none => rfl
+      | some e =>
+        obtain ⟨hs, pe, hpe, _⟩ := hwf.2 k e hk hne
+        by_cases hp : parentInternal k = []
+        · have : afterLast '/' k ∈ m.keys.filterMap (childName []) :=
+            (mem_filterMap_childName m [] _).2 ⟨k, e, hk, hs, hp, rfl⟩
+          rw [hl] at this
+          cases this
+        · have := ih _ (by rw [← hlen]; exact parent_shorter k hs) (parentInternal k) rfl hp
+          rw [this] at hpe
+          cases hpe
+  intro k hne
+  exact key k.length k rfl hne
+
+/-- `remove_dir("")`: either refused (the tree stays as it is), or the tree was the bare root
+and the map is empty afterwards -/
+theorem removeDir_root {m : FMap} (hwf : WF m) :
+    WF (Mem.removeDir m []).2 ∨ Empty (Mem.removeDir m []).2 := by
+  unfold Mem.removeDir
+  split
+  · rename_i l hl
+    split
+    · exact Or.inl hwf
+    · rename_i hnil
+      have hl' : l = [] := by simpa using hnil
+      subst hl'
+      split
+      · right
+        have hlist : m.keys.filterMap (childName []) = [] := by
+          unfold Mem.readDir at hl
+          split at hl
+          · simp [fail] at hl
+          · split at hl
+            · simp [fail] at hl
+            · injection hl
+        intro k
+        by_cases hk : k = []
+        · subst hk; exact FMap.find?_erase_self m []
+        · rw [FMap.find?_erase_ne m [] k hk]
+          exact hwf.only_root hlist k hk
+      · exact Or.inl hwf
+  · exact Or.inl hwf
+  · exact Or.inl hwf
+
+theorem region_wf_or_empty (m : FMap) (pt : Pt) (h : WF m ∨ Empty m) :
+    WF (region m pt).files ∨ Empty (region m pt).files := by
+  rcases h with h | h
+  · by_cases hpt : PtOk pt
+    · exact Or.inl (region_wf h pt hpt)
+    · cases pt with
+      | rmDir p =>
+        have hp : p = [] := by
+          by_cases hp : p = []
+          · exact hp
+          · exact absurd hp hpt
+        subst hp
+        rw [region_files]
+        exact removeDir_root h
+      | _ => exact absurd trivial hpt
+  · rw [region_files, regionFiles_empty m pt h]
+    exact Or.inr h
+
+/-- **wf_or_empty_invariant**: with NO hypothesis on the programs (they may call
+`remove_dir("")`): every step keeps "the tree is well-formed, or the map is empty" -/
+theorem wf_or_empty_invariant (s : Sys) (tid : Nat) (h : WF s.files ∨ Empty s.files) :
+    WF (step s tid).files ∨ Empty (step s tid).files := by
+  cases hg : s.threads[tid]? with
+  | none => rw [step_of_none s tid hg]; exact h
+  | some t =>
+    rw [step_of_some s tid t hg]
+    rcases stepThread_cases s.files t with ⟨_, heq⟩ | ⟨pt, _, ⟨_, _, heq⟩ | ⟨_, _, heq⟩⟩
+    · rw [heq]; exact h
+    · rw [heq]; exact region_wf_or_empty s.files pt h
+    · rw [heq]; exact region_wf_or_empty s.files pt h
+
+theorem run_wf_or_empty (s : Sys) (schedule : List Nat) (h : WF s.files ∨ Empty s.files) :
+    WF (run s schedule).files ∨ Empty (run s schedule).files :=
+  run_invariant (fun s => WF s.files ∨ Empty s.files) (fun s tid h => wf_or_empty_invariant s tid h)
+    s h schedule
 
 /-! ## 2. Linearizability by reduction -/
 
@@ -650,5 +833,370 @@ theorem linearizable_complete (s0 : Sys)
     rcases g4 with ⟨_, g4⟩ | ⟨pt, c, g4, _⟩
     · simp [g1, g2, g4, f2]
     · rw [f1] at g4; cases g4
+
+/-! ## 3. The two write sessions are NOT atomic; the race that was fixed -/
+
+def pC : Str := ['/', 'c']
+def bOld : Bytes := [111, 108, 100]
+def bNew : Bytes := [110, 101, 119]
+def bA : Bytes := [65]
+def bB : Bytes := [66]
+
+def fileWith (b : Bytes) : Entry :=
+  { ftype := .file, content := b, created := .now, modified := .now, accessed := .now }
+
+/-- the root and the file "/c" = "old" -/
+def mC : FMap := [(pC, fileWith bOld), ([], dirEntryNow)]
+
+/-- T0 = `create_file("/c")?.write_all("new")`, drop; T1 = read "/c" -/
+def wsSys : Sys :=
+  { files := mC, threads := [{ calls := [.writeSession pC bNew] }, { calls := [.read pC] }] }
+
+/-- **writeSession_not_atomic**: a write session is four regions (two probes, `create_file` —
+which truncates —, and the publication at drop). Under the schedule t0 t0 t0 t1 t0 the reader
+sees the EMPTY file; in the two sequential orders it sees "new" resp. "old". So no sequential
+execution of the two calls explains the interleaving: a write session is not atomic. -/
+theorem writeSession_not_atomic :
+    (run wsSys [0, 0, 0, 1, 0]).threads.map (·.results) = [[.ok .unit], [.ok (.bytes [])]] ∧
+    (runA (absSys wsSys) [0, 1]).threads.map (·.results) = [[.ok .unit], [.ok (.bytes bNew)]] ∧
+    (runA (absSys wsSys) [1, 0]).threads.map (·.results) = [[.ok .unit], [.ok (.bytes bOld)]] := by
+  decide +kernel
+
+/-- T0 = `append_file("/c")?.write_all("A")`, drop; T1 the same with "B" -/
+def apSys : Sys :=
+  { files := mC,
+    threads := [{ calls := [.appendSession pC bA] }, { calls := [.appendSession pC bB] }] }
+
+def contentOf (m : FMap) (p : Str) : Option Bytes := (m.find? p).map (·.content)
+
+/-- **appendSession_lost_update**: an append session is two regions (`append_file` copies the
+current content into the handle's buffer; the drop publishes the buffer). Under the schedule
+t0 t1 t0 t1 both sessions return `Ok` but the final content is "oldB": the update "A" is lost.
+The two sequential orders give "oldAB" and "oldBA". -/
+theorem appendSession_lost_update :
+    (run apSys [0, 1, 0, 1]).threads.map (·.results) = [[.ok .unit], [.ok .unit]] ∧
+    contentOf (run apSys [0, 1, 0, 1]).files pC = some (bOld ++ bB) ∧
+    contentOf (runA (absSys apSys) [0, 1]).files pC = some (bOld ++ bA ++ bB) ∧
+    contentOf (runA (absSys apSys) [1, 0]).files pC = some (bOld ++ bB ++ bA) := by
+  decide +kernel
+
+/-! ### the race between `create_dir` and `remove_dir` before the fix (regression) -/
+
+/-- program points of the variant model: the current ones, plus the two regions of the OLD
+`MemoryFS::create_dir` (before commit 17b99c0): `ensure_has_parent` took the lock on its own and
+only looked whether the parent EXISTS; the insertion happened under a second acquisition, with no
+check of the parent at all -/
+inductive OPt where
+  | std (pt : Pt)
+  | ensureOld (p : Str)
+  | insertOld (p : Str)
+  deriving Repr, DecidableEq
+
+/-- the variant region function: `VfsPath::create_dir` is `exists(parent)` → `metadata(parent)` →
+`ensureOld` → `insertOld`; everything else as in `region` -/
+def regionOld (m : FMap) : OPt → FMap × (OPt ⊕ CRes)
+  | .std (.gpMeta p false none) =>
+    match (region m (.gpMeta p false none)).next with
+    | .inl _ => (m, .inl (.ensureOld p))
+    | .inr r => (m, .inr r)
+  | .std pt =>
+    ((region m pt).files,
+      match (region m pt).next with
+      | .inl pt' => .inl (.std pt')
+      | .inr r => .inr r)
+  | .ensureOld p =>
+    if '/' ∈ p ∧ m.contains (parentInternal p) then (m, .inl (.insertOld p)) else (m, .inr .err)
+  | .insertOld p =>
+    match m.find? p with
+    | some _ => (m, .inr .err)
+    | none => (m.insert p dirEntryNow, .inr (.ok .unit))
+
+/-- a thread of the variant model: one call, in progress at `cur` -/
+structure OThread where
+  cur : Option OPt
+  result : Option CRes := none
+  deriving Repr, DecidableEq
+
+def stepOld (s : FMap × List OThread) (tid : Nat) : FMap × List OThread :=
+  match s.2[tid]? with
+  | none => s
+  | some t =>
+    match t.cur with
+    | none => s
+    | some pt =>
+      match (regionOld s.1 pt).2 with
+      | .inl pt' => ((regionOld s.1 pt).1, s.2.set tid { t with cur := some pt' })
+      | .inr r => ((regionOld s.1 pt).1, s.2.set tid { cur := none, result := some r })
+
+def runOld (s : FMap × List OThread) (schedule : List Nat) : FMap × List OThread :=
+  schedule.foldl stepOld s
+
+def pA : Str := ['/', 'a']
+def pAB : Str := ['/', 'a', '/', 'b']
+
+/-- the root and the empty directory "/a" -/
+def mA : FMap := [(pA, dirEntryNow), ([], dirEntryNow)]
+
+/-- T0 = `create_dir("/a/b")` (old code), T1 = `remove_dir("/a")` (even the current, atomic one) -/
+def raceOld : FMap × List OThread :=
+  (mA, [{ cur := some (.std (.gpExists pAB false none)) }, { cur := some (.std (.rmDir pA)) }])
+
+theorem raceOld_run :
+    (runOld raceOld [0, 0, 0, 1, 0]).2.map (·.result) = [some (.ok .unit), some (.ok .unit)] ∧
+    (runOld raceOld [0, 0, 0, 1, 0]).1.find? pAB = some dirEntryNow ∧
+    (runOld raceOld [0, 0, 0, 1, 0]).1.find? pA = none := by
+  decide +kernel
+
+/-- **old_createDir_race** (regression): with the old two-region `create_dir`, the schedule
+t0 t0 t0 t1 t0 lets BOTH calls return `Ok`, and leaves "/a/b" in a map without "/a": the tree
+is not well-formed. (`wf_invariant` shows this cannot happen with the current code.) -/
+theorem old_createDir_race :
+    (runOld raceOld [0, 0, 0, 1, 0]).2.map (·.result) = [some (.ok .unit), some (.ok .unit)] ∧
+    ¬ WF (runOld raceOld [0, 0, 0, 1, 0]).1 := by
+  obtain ⟨h1, h2, h3⟩ := raceOld_run
+  refine ⟨h1, ?_⟩
+  intro hwf
+  obtain ⟨_, pe, hpe, _⟩ := hwf.2 pAB dirEntryNow h2 (by decide)
+  have hpar : parentInternal pAB = pA := by decide
+  rw [hpar, h3] at hpe
+  cases hpe
+
+/-- the same two calls in the current model, same kind of schedule: `create_dir` checks the parent
+inside its last region, fails, and the tree is well-formed (root only) -/
+theorem race_fixed :
+    (run { files := mA, threads := [{ calls := [.createDir pAB] }, { calls := [.removeDir pA] }] }
+        [0, 0, 1, 0]).threads.map (·.results) = [[.err], [.ok .unit]] ∧
+    (run { files := mA, threads := [{ calls := [.createDir pAB] }, { calls := [.removeDir pA] }] }
+        [0, 0, 1, 0]).files.keys = [[]] := by
+  decide +kernel
+
+/-- `create_dir_all` is NOT linearizable against a concurrent removal (it is a loop of separate
+`create_dir` calls): t0 creates "/a", t1 removes it, t0 fails on "/a/b". Sequentially either
+`create_dir_all` succeeds (and `remove_dir` fails: not empty), or `remove_dir` fails first (not
+found). This is why C17 assumes that nothing is removed. -/
+theorem createDirAll_not_atomic_under_removal :
+    (run { files := Mem.init, threads := [{ calls := [.createDirAll pAB] }, { calls := [.removeDir pA] }] }
+        [0, 1, 0]).threads.map (·.results) = [[.err], [.ok .unit]] ∧
+    (runA { files := Mem.init, threads := [{ calls := [.createDirAll pAB] }, { calls := [.removeDir pA] }] }
+        [0, 1]).threads.map (·.results) = [[.ok .unit], [.err]] ∧
+    (runA { files := Mem.init, threads := [{ calls := [.createDirAll pAB] }, { calls := [.removeDir pA] }] }
+        [1, 0]).threads.map (·.results) = [[.ok .unit], [.err]] := by
+  decide +kernel
+
+/-! ## 4. No deadlock, no panic: every scheduled thread with work left makes progress -/
+
+def sessExtra : Option Bytes → Nat
+  | none => 0
+  | some _ => 1
+
+/-- an upper bound for the number of regions a call in progress at `pt` still executes -/
+def ptMeasure : Pt → Nat
+  | .gpExists _ _ s => 3 + sessExtra s
+  | .gpMeta _ _ s => 2 + sessExtra s
+  | .cfCreate _ s => 1 + sessExtra s
+  | .apOpen _ s => 1 + sessExtra s
+  | .cdaLoop l => l.length + 1
+  | _ => 1
+
+/-- an upper bound for the number of regions of a call, `+1` for calls that may have none -/
+def callMeasure : COp → Nat
+  | .createDir _ => 3
+  | .createFile _ => 3
+  | .writeSession _ _ => 4
+  | .appendSession _ _ => 2
+  | .createDirAll p => (VPath.dirPrefixes p).length + 1
+  | _ => 1
+
+/-- the remaining-work measure of a thread -/
+def measure (t : Thread) : Nat :=
+  (match t.cur with
+    | some pt => ptMeasure pt
+    | none => 0) + (t.calls.map callMeasure).sum
+
+theorem ptMeasure_pos (pt : Pt) : 0 < ptMeasure pt := by
+  cases pt <;> simp [ptMeasure] <;> omega
+
+theorem callMeasure_pos (c : COp) : 0 < callMeasure c := by
+  cases c <;> simp [callMeasure]
+
+theorem start_measure (h : Option WH) (c : COp) (pt : Pt) (hs : start h c = .inl pt) :
+    ptMeasure pt ≤ callMeasure c := by
+  cases c with
+  | writeDrop bs =>
+    cases h <;> simp only [start, Sum.inl.injEq, reduceCtorEq] at hs
+    subst hs; simp [ptMeasure, callMeasure]
+  | createDirAll p =>
+    simp only [start] at hs
+    split at hs
+    · cases hs
+    · injection hs with hs; subst hs; simp [ptMeasure, callMeasure]
+  | _ =>
+    simp only [start, Sum.inl.injEq] at hs
+    subst hs; simp [ptMeasure, callMeasure, sessExtra]
+
+/-- a region that continues its call leaves strictly less to do -/
+theorem region_measure (m : FMap) (pt pt' : Pt) (h : (region m pt).next = .inl pt') :
+    ptMeasure pt' < ptMeasure pt := by
+  cases pt with
+  | cdaLoop l =>
+    cases l with
+    | nil => simp [region, okUnit] at h
+    | cons d rest =>
+      simp only [region] at h
+      split at h <;> (try split at h) <;>
+        first
+        | (injection h with h; subst h; simp [ptMeasure])
+        | (simp [okUnit] at h)
+  | gpMeta p f s =>
+    by_cases hp : ParentDir m p
+    · rw [(gp_ok m p f s hp).2] at h
+      injection h with h
+      subst h
+      cases f <;> simp [ptMeasure] <;> omega
+    · rw [(gp_fail m p f s hp).2] at h
+      cases h
+  | _ =>
+    simp only [region] at h
+    repeat' split at h
+    all_goals first
+      | (injection h with h; subst h; simp [ptMeasure, sessExtra])
+      | (simp [okUnit] at h)
+
+theorem settle_measure (fuel : Nat) (t : Thread) : measure (settle fuel t) ≤ measure t := by
+  induction fuel generalizing t with
+  | zero => exact Nat.le_refl _
+  | succ n ih =>
+    unfold settle
+    split
+    · exact Nat.le_refl _
+    · rename_i hcur
+      split
+      · exact Nat.le_refl _
+      · rename_i c rest hcalls
+        split
+        · rename_i pt hs
+          have := start_measure _ _ _ hs
+          simp only [measure, hcur, hcalls, List.map_cons, List.sum_cons]
+          omega
+        · refine Nat.le_trans (ih _) ?_
+          simp only [measure, hcur, hcalls, List.map_cons, List.sum_cons]
+          omega
+
+/-- a thread with calls left that `settle` leaves without a region to run has completed at
+least one (region-less) call -/
+theorem settle_idle_lt (n : Nat) (t : Thread) (hcur : t.cur = none) (hcalls : t.calls ≠ [])
+    (hidle : (settle (n + 1) t).cur = none) : measure (settle (n + 1) t) < measure t := by
+  unfold settle at hidle ⊢
+  simp only [hcur] at hidle ⊢
+  cases hc : t.calls with
+  | nil => exact absurd hc hcalls
+  | cons c rest =>
+    simp only [hc] at hidle ⊢
+    cases hs : start t.handle c with
+    | inl pt => simp only [hs] at hidle; cases hidle
+    | inr r =>
+      simp only [hs] at hidle ⊢
+      refine Nat.lt_of_le_of_lt (settle_measure n _) ?_
+      have := callMeasure_pos c
+      simp only [measure, hcur, hc, List.map_cons, List.sum_cons]
+      omega
+
+/-- one scheduled thread with work left: its measure strictly decreases -/
+theorem stepThread_progress (m : FMap) (t : Thread) (hw : t.cur ≠ none ∨ t.calls ≠ []) :
+    measure (stepThread m t).2 < measure t := by
+  have h0 := settle_measure (t.calls.length + 1) t
+  rcases stepThread_cases m t with ⟨hidle, heq⟩ | ⟨pt, hcur, ⟨pt', hn, heq⟩ | ⟨r, hn, heq⟩⟩
+  · rw [heq]
+    cases hc : t.cur with
+    | some pt0 =>
+      have : settle (t.calls.length + 1) t = t := by unfold settle; simp only [hc]
+      rw [this, hc] at hidle; cases hidle
+    | none =>
+      have hcalls : t.calls ≠ [] := by
+        rcases hw with hw | hw
+        · exact absurd hc hw
+        · exact hw
+      exact settle_idle_lt _ t hc hcalls hidle
+  · rw [heq]
+    have := region_measure m pt pt' hn
+    have h1 : measure (settle (t.calls.length + 1) t) =
+        ptMeasure pt + ((settle (t.calls.length + 1) t).calls.map callMeasure).sum := by
+      simp only [measure, hcur]
+    simp only [measure, afterRegion_calls] at h0 h1 ⊢
+    omega
+  · rw [heq]
+    refine Nat.lt_of_le_of_lt (settle_measure _ _) ?_
+    have := ptMeasure_pos pt
+    have h1 : measure (settle (t.calls.length + 1) t) =
+        ptMeasure pt + ((settle (t.calls.length + 1) t).calls.map callMeasure).sum := by
+      simp only [measure, hcur]
+    simp only [measure, afterRegion_calls] at h0 h1 ⊢
+    omega
+
+/-- **step_progress**: `step` is a total function (no region can block: each region is one
+acquisition of the one lock, released at its end; no region returns a panic), and a scheduled
+thread that has a call in progress or calls left strictly decreases its remaining-work measure.
+So every thread scheduled often enough finishes: no deadlock, no livelock. -/
+theorem step_progress (s : Sys) (tid : Nat) (t : Thread) (hg : s.threads[tid]? = some t)
+    (hw : t.cur ≠ none ∨ t.calls ≠ []) :
+    ∃ t', (step s tid).threads[tid]? = some t' ∧ measure t' < measure t := by
+  have hlt : tid < s.threads.length := (List.getElem?_eq_some_iff.1 hg).1
+  refine ⟨(stepThread s.files t).2, ?_, stepThread_progress s.files t hw⟩
+  rw [step_of_some s tid t hg]
+  exact List.getElem?_set_self hlt
+
+/-- the other threads are not touched by a step -/
+theorem step_other (s : Sys) (tid i : Nat) (hi : tid ≠ i) :
+    (step s tid).threads[i]? = s.threads[i]? := by
+  cases hg : s.threads[tid]? with
+  | none => rw [step_of_none s tid hg]
+  | some t => rw [step_of_some s tid t hg]; exact List.getElem?_set_ne hi
+
+/-- a thread without work is finished for good -/
+theorem stepThread_finished (m : FMap) (t : Thread) (h1 : t.cur = none) (h2 : t.calls = []) :
+    stepThread m t = (m, t) := by
+  have : settle (t.calls.length + 1) t = t := by unfold settle; simp only [h1, h2]
+  rw [stepThread_idle m t (by rw [this]; exact h1), this]
+
+/-- the memory operations executed inside the regions never return the panic outcome -/
+theorem mem_ops_no_panic (m : FMap) (p : Str) :
+    (Mem.createDir m p).1 ≠ .panic ∧ (Mem.createFile m p).1 ≠ .panic ∧
+    (Mem.removeFile m p).1 ≠ .panic ∧ (Mem.removeDir m p).1 ≠ .panic ∧
+    (Mem.openFile m p).1 ≠ .panic ∧ Mem.appendFile m p ≠ .panic ∧
+    Mem.metadata m p ≠ .panic ∧ Mem.readDir m p ≠ .panic := by
+  have hen := ensureHasParent_no_panic m p
+  have hrd : Mem.readDir m p ≠ .panic := by
+    unfold Mem.readDir; split <;> (try split) <;> simp [fail]
+  refine ⟨?_, ?_, ?_, ?_, ?_, ?_, ?_, hrd⟩
+  · unfold Mem.createDir
+    split
+    · split
+      · split <;> simp [fail]
+      · simp
+    · simp
+    · rename_i h; exact absurd h hen
+  · unfold Mem.createFile
+    split
+    · split
+      · split <;> simp [fail]
+      · simp
+    · simp
+    · rename_i h; exact absurd h hen
+  · unfold Mem.removeFile; split <;> (try split) <;> simp [fail]
+  · unfold Mem.removeDir
+    split
+    · split
+      · simp [fail]
+      · split <;> simp [fail]
+    · simp
+    · rename_i h; exact absurd h hrd
+  · unfold Mem.openFile Mem.setAccessed
+    cases hf : m.find? p with
+    | none => simp [fail]
+    | some e =>
+      simp only [FMap.find?_insert_self]
+      split <;> simp [fail]
+  · unfold Mem.appendFile; split <;> (try split) <;> simp [fail]
+  · unfold Mem.metadata; split <;> simp [fail]
 
 end Vfs.C16
